@@ -111,6 +111,28 @@ def check_json(rep, prog):
             forms = [compare("ne", Op("len", js), Const(0)), compare("gt", Op("len", js), Const(0)), I.truth(js), compare("ne", js, Const(""))]
             i4 = any(implies(Rg, f_)[0] for f_ in forms)
             wrote = any(any(x == js for a in w.data[2] for x in walk(a)) for w in writes)
+            if wrote and not all(len(w.data[2]) == 1 and w.data[2][0] == js and not w.loops for w in writes):
+                # written in pieces (blocks, lines): the pieces must add up to the whole text - the write summary is run on
+                # texts of lengths around every block boundary
+                from ..terms import evaluate, CannotEval
+                items_ = []
+                for w in writes:
+                    t_ = w.data[2][0] if w.data[2] else Const("")
+                    t_ = Op("splat", t_) if w.data[1] == "writelines" else t_
+                    items_.append(("rep", w.loops[-1], t_, w.guard) if w.loops else ("v", t_, w.guard))
+                try:
+                    for n_ in (0, 1, 2, 3, 100, 4095, 4096, 4097, 8191, 8192, 8193, 12289, 65536, 65537):
+                        text_ = "".join(chr(33 + (i_ * 7) % 90) for i_ in range(n_))
+                        env_ = pelx.with_heap(I, {js: text_, Op("len", js): n_, Op("truthy", js): bool(text_), dele: True,
+                                                  res: ("E", text_), Op("getitem", res, Const(0)): "E"})
+                        for x_ in walk(and_(*[w.guard for w in writes])):
+                            if isinstance(x_, Sym) and x_.kind == "exc":
+                                env_[x_] = False
+                        got_ = "".join(str(p_) for p_ in pelx.eval_items(items_, env_))
+                        if got_ != text_ and n_ > 0:
+                            wrote = False
+                except CannotEval:
+                    pass
             rep.check(i4 and wrote, rule, "the input is removed only when the decoder returned a non-empty document, and that text is what was written",
                       where, R.node, "the removal does not depend on a non-empty decoded document having been written (tests something else "
                       "than the JSON text: a PEL the filter rejects, or an empty result, is deleted with nothing or an empty file written)", node=R.node)
@@ -211,6 +233,32 @@ def check_file(rep, prog):
                   "removed path is %r" % (norm(R.data[1][0]),), node=R.node)
 
 
+def check_other_removals(rep, prog):
+    """--clean removals anywhere else than in the two places examined above: the pairing 'this file's own document was
+    written / printed' cannot be established for them (e.g. a second pass that deletes by a list of earlier results)"""
+    rule = "C12.R4.removal-sites"
+    from ..cli import FullMain
+    fm = FullMain(prog)
+    clean = fm.arg("clean")
+    argfile = fm.arg("file")
+    n = 0
+    for e in fm.events:
+        if e.kind != "extcall" or e.data[0] not in REMOVERS:
+            continue
+        g = fm.norm(e.guard)
+        if g == FALSE or not implies(g, clean)[0]:
+            continue                # not a --clean removal (the delete modes are C11's)
+        n += 1
+        in_json = PT + "parseAndWriteOutput" in e.stack
+        in_file = any(mentions(fm.norm(a), argfile) for a in e.data[1])
+        rep.check(in_json or in_file, rule, "%s:%s a --clean removal happens where the file's own document was just written / printed" % (
+            e.func.split(".")[-1], getattr(e.node, "lineno", "?")), e.func, e.node,
+            "under --clean a file is removed outside the step that wrote / printed its own document (%s in %s): whether THIS file was "
+            "converted successfully is not what decides its removal" % (e.data[0], e.func.split(".")[-1]), node=e.node)
+    rep.count("--clean removal sites in the command line", n)
+    return n
+
+
 def check_decode_failure_visible(rep, prog):
     """'decoded successfully' is what licenses the removal: a failure while decoding any section must reach the caller
     (no document, or the exception) - a decoder that swallows it and returns a document anyway gets damaged logs deleted"""
@@ -249,5 +297,6 @@ def run(rep, prog, thorough):
     check_json(rep, prog)
     check_file(rep, prog)
     check_decode_failure_visible(rep, prog)
-    rep.floor("input-removal sites", rep.analysed.get("input-removal sites (--json)", 0) +
-              rep.analysed.get("input-removal sites (--file)", 0), 2)
+    nother = check_other_removals(rep, prog)
+    rep.floor("input-removal sites", max(rep.analysed.get("input-removal sites (--json)", 0) +
+              rep.analysed.get("input-removal sites (--file)", 0), nother), 2)
